@@ -242,6 +242,16 @@ def standby_rule(ck, agg):
         n += 1
         clocks = {e.data: e.seq for e in out.trace if e.kind == "clock"}
         rs = [e for e in out.trace if e.kind == "radio-send"]
+        # what the wait reports is what the radio reported for the last re-send (False when there was none) - not what the clock says
+        v = norm(out.value) if hasattr(out.value, "key") else out.value
+        if not rs:
+            okv = isinstance(v, Const) and not v.v
+        else:
+            last = ("sendresult", out.state.extra.get("nsend", len(rs)))
+            known = [e.data[0] for e in out.trace if e.kind == "cond" and not isinstance(e.data[1], tuple) and isinstance(norm(e.data[1]), Sym) and norm(e.data[1]).name == last]
+            okv = (isinstance(v, Sym) and v.name == last) or (isinstance(v, Const) and isinstance(v.v, bool) and bool(known) and known[-1] is v.v)
+        agg.add("R13.7", f, "_tx_standby() reports the radio's result of the last re-send (False if nothing was re-sent)", okv,
+                "after %d re-send(s) the function returns %r - a delivered frame is reported as lost (no NETWORK_ACK is emitted for it) or the reverse" % (len(rs), out.value))
         for e in rs:
             # the re-send happens inside the time window: the latest decision before it compares a clock reading with budget*1e6 + earlier reading
             prior = [c for c in out.trace if c.kind == "cond" and c.seq < e.seq and isinstance(c.data[1], tuple) and any(_clockish(x) for x in c.data[1])]
@@ -280,6 +290,10 @@ def run(ck):
     n2 = write_rules(ck, agg, nn)
     n3 = receive_rule(ck, agg, nn)
     n4 = standby_rule(ck, agg)
+    # "believed only if received": a NETWORK_ACK that arrived must reach the handler above - the reception path drops only frames that are
+    # too short or carry an invalid address (R05.3/R05.6, shared with C05)
+    from . import c05
+    c05.receive(ck, agg, net.NetNode(ck, "rf24_network", "RF24Network"))
     agg.flush()
     ck.floor("R13.7", "timed re-send paths", n4, 2)
     ck.floor("R13.1", "message types", n1, 256)
